@@ -18,6 +18,8 @@ type Fact struct {
 	// type switch membership
 	TypeOf ast.Expr
 	Types  []ast.Expr
+	// Enclosing: from a construct the node is nested in (not the negation of a preceding early exit)
+	Enclosing bool
 }
 
 // Facts flattens guards into atomic facts: (A && B)=true gives A, B true; (A || B)=false gives A, B false; !A flips.
@@ -52,6 +54,7 @@ func Facts(gs []Guard) []Fact {
 		out = append(out, Fact{Expr: e, Truth: truth})
 	}
 	for _, g := range gs {
+		start := len(out)
 		switch {
 		case g.Types != nil:
 			out = append(out, Fact{TypeOf: g.Cond, Types: g.Types, Truth: g.Pos})
@@ -68,12 +71,18 @@ func Facts(gs []Guard) []Fact {
 		default:
 			add(g.Cond, g.Pos)
 		}
+		for k := start; k < len(out); k++ {
+			out[k].Enclosing = g.Enclosing
+		}
 	}
 	return out
 }
 
-// FactsAt is Facts(GuardsAt(f, n)).
+// FactsAt is Facts(GuardsAt(f, n)): what is known to hold when control reaches n.
 func FactsAt(f *Fn, n ast.Node) []Fact { return Facts(GuardsAt(f, n)) }
+
+// CtlFactsAt is Facts(CtlGuardsAt(f, n)): the branch decisions n is control-dependent on.
+func CtlFactsAt(f *Fn, n ast.Node) []Fact { return Facts(CtlGuardsAt(f, n)) }
 
 // SameExpr reports structural equality of two expressions with identifiers compared by object.
 func SameExpr(pk *packages.Package, a, b ast.Expr) bool {
@@ -187,4 +196,63 @@ func KnownNonNil(pk *packages.Package, facts []Fact, x ast.Expr) bool {
 		}
 	}
 	return false
+}
+
+// GuardSig returns the sorted canonical signature of the structural path condition of n.
+func GuardSig(f *Fn, n ast.Node) []string {
+	var out []string
+	for _, ft := range CtlFactsAt(f, n) {
+		switch {
+		case ft.Expr != nil:
+			out = append(out, types.ExprString(ft.Expr)+"="+boolStr(ft.Truth))
+		case ft.Tag != nil:
+			s := types.ExprString(ft.Tag) + " in {"
+			for _, v := range ft.Vals {
+				s += types.ExprString(v) + ","
+			}
+			out = append(out, s+"}="+boolStr(ft.Truth))
+		}
+	}
+	// also loops enclosing n matter for control equivalence
+	for _, p := range PathTo(f.Decl.Body, n) {
+		switch l := p.(type) {
+		case *ast.ForStmt, *ast.RangeStmt:
+			if l != n {
+				out = append(out, "loop@"+f.Pkg.Fset.Position(l.Pos()).String())
+			}
+		}
+	}
+	for i := 1; i < len(out); i++ {
+		for j := i; j > 0 && out[j] < out[j-1]; j-- {
+			out[j], out[j-1] = out[j-1], out[j]
+		}
+	}
+	// dedupe
+	var d []string
+	for i, s := range out {
+		if i == 0 || s != out[i-1] {
+			d = append(d, s)
+		}
+	}
+	return d
+}
+
+func boolStr(b bool) string {
+	if b {
+		return "T"
+	}
+	return "F"
+}
+
+// SameSig compares two signatures.
+func SameSig(a, b []string) bool {
+	if len(a) != len(b) {
+		return false
+	}
+	for i := range a {
+		if a[i] != b[i] {
+			return false
+		}
+	}
+	return true
 }
